@@ -238,9 +238,13 @@ Definition store (r : Z) (s : node) : node :=
   notify_subs (set_legit (r :: legit s) (set_manual false (set_value (Some r) s))).
 
 (** * the node's task *)
+(** the loop of the real task is unbounded; it stops within four rounds (a completed fetch, the
+    flag, possibly the completed initial future, the flag once more). Should the fuel ever run
+    out, the task is left ready, so that nothing is lost — the theorems cover that branch, and
+    the correspondence check would see the extra ready task. *)
 Fixpoint n_loop (c : cfg) (fuel : nat) (s : node) : node :=
   match fuel with
-  | O => s
+  | O => set_woken true s
   | S f =>
       match task s with
       | TIdle =>
